@@ -89,6 +89,7 @@ impl<'a> G<'a> {
             2 => 0,
             3 => -1,
             4 => (1 << 53) + 1,
+            5 => 1,
             _ => self.rng.range(0, 100_000),
         }
     }
@@ -97,6 +98,8 @@ impl<'a> G<'a> {
             0 => usize::MAX,
             1 => 0,
             2 => (1 << 63) + 5,
+            3 | 4 => 1,
+            5 => 2,
             _ => self.rng.usize(0, 50),
         }
     }
